@@ -1004,6 +1004,31 @@ Proof.
 Qed.
 Print Assumptions covered_correct.
 
+(* an instruction with several behaviour parts (the 72 two-part definitions of the corpus): every part is compiled on its own, the
+   temporary counter runs on from part to part; [covered_parts] chains the counter as the compiler does *)
+Fixpoint covered_parts (h : N) (ps : list cstmts) : list bool :=
+  match ps with
+  | [] => []
+  | p :: t => covered h p :: covered_parts (match tlower_info (cfg_insn h) p with OK i => ti_hcount i | Err _ => h end) t
+  end.
+Fixpoint part_counters (h : N) (ps : list cstmts) : list N :=
+  match ps with
+  | [] => []
+  | p :: t => h :: part_counters (match tlower_info (cfg_insn h) p with OK i => ti_hcount i | Err _ => h end) t
+  end.
+Lemma covered_parts_spec h ps : covered_parts h ps = map (fun hp => covered (fst hp) (snd hp)) (combine (part_counters h ps) ps).
+Proof. revert h. induction ps as [|p t IH]; intros h; [reflexivity|]. cbn [covered_parts part_counters combine map fst snd]. rewrite IH. reflexivity. Qed.
+(* every part reported covered satisfies the premise of [covered_correct] at the counter the compiler has when it reaches the part *)
+Theorem covered_parts_correct h ps k p hk : nth_error ps k = Some p -> nth_error (part_counters h ps) k = Some hk ->
+  nth_error (covered_parts h ps) k = Some true -> covered hk p = true.
+Proof.
+  revert h k. induction ps as [|q t IH]; intros h k Hp Hh Hc; [destruct k; discriminate Hp|].
+  destruct k as [|k]; cbn [nth_error covered_parts part_counters] in *.
+  - injection Hp as ->. injection Hh as <-. injection Hc as ->. reflexivity.
+  - exact (IH _ k Hp Hh Hc).
+Qed.
+Print Assumptions covered_parts_correct.
+
 (* ================================================================== 6. examples *)
 Module CheckExamples.
   Definition reg (cls letters : string) := EOp (OReg cls letters).
